@@ -27,7 +27,10 @@ def op_target(world, op):
         return float("inf")
     if t == "-inf":
         return float("-inf")
-    return float(np.asarray(t, dtype=world.problem.dtype))     # the library sees the target in the state's precision
+    if op.get("t_type"):
+        from .world import typed_target
+        t = typed_target(t, op["t_type"])
+    return float(np.asarray(t, dtype=world.problem.dtype))     # the target in the state's precision (what a "few rounding units" refers to)
 
 
 def integrated_ok(snap):
